@@ -407,7 +407,10 @@ func checkCase(c Case) (Outcome, error) {
 				for _, rep := range lf.Reports {
 					for _, d := range rep.Diagnostics {
 						if strings.HasPrefix(d.Code, "DS1") {
-							got = append(got, d.Code+":"+objectOf(d.Text))
+							// one diagnostic may name several columns: Dropping non-virtual columns "b" and "d"
+							for _, o := range objectsOf(d.Text) {
+								got = append(got, d.Code+":"+o)
+							}
 							diags = append(diags, diag{d.Code, d.Text, d.Pos})
 						}
 					}
@@ -462,6 +465,28 @@ func checkCase(c Case) (Outcome, error) {
 }
 
 // objectOf extracts the quoted object name from a diagnostic text.
+// objectsOf returns every double-quoted name of a diagnostic text (the whole text if there is none).
+func objectsOf(text string) []string {
+	var out []string
+	rest := text
+	for {
+		i := strings.Index(rest, `"`)
+		if i == -1 {
+			break
+		}
+		j := strings.Index(rest[i+1:], `"`)
+		if j == -1 {
+			break
+		}
+		out = append(out, rest[i+1:i+1+j])
+		rest = rest[i+j+2:]
+	}
+	if len(out) == 0 {
+		return []string{text}
+	}
+	return out
+}
+
 func objectOf(text string) string {
 	i := strings.Index(text, `"`)
 	if i == -1 {
